@@ -34,6 +34,11 @@ type ttPayload struct {
 	move   board.Move
 }
 
+// narrowPayloads makes all stores for one hash agree in everything but the score (the situation of a
+// search re-storing the same node with a refined value): metadata then cannot tell two stores apart,
+// only the score's redundant tag can.
+var narrowPayloads atomic.Bool
+
 func mkPayload(h board.ZobristHash, writer, seq int, r *rand.Rand) ttPayload {
 	x := uint64(h)*0x9E3779B97F4A7C15 ^ uint64(writer)<<32 ^ uint64(seq)*0xBF58476D1CE4E5B9
 	x ^= x >> 29
@@ -41,9 +46,20 @@ func mkPayload(h board.ZobristHash, writer, seq int, r *rand.Rand) ttPayload {
 	p.bound = search.Bound(x & 1)
 	p.depth = int(r.Intn(12))
 	p.ply = int(r.Intn(16))
-	p.score = eval.Score{Type: eval.Heuristic, Pawns: eval.Pawns(float32(writer*65536 + seq))}
 	p.move = board.Move{From: board.Square((x >> 8) & 63), To: board.Square((x >> 16) & 63), Promotion: board.Piece((x >> 24) % 6)}
+	if narrowPayloads.Load() {
+		y := uint64(h) * 0x9E3779B97F4A7C15
+		p.bound = search.Bound(y & 1)
+		p.depth, p.ply = int(y>>8)%4, int(y>>16)%4
+		p.move = board.Move{From: board.Square((y >> 24) & 63), To: board.Square((y >> 32) & 63)}
+	}
+	// the score carries the tag twice: Pawns = writer*65536+seq, Mate = a checksum of it
+	p.score = eval.Score{Type: eval.Heuristic, Mate: tagSum(writer, seq), Pawns: eval.Pawns(float32(writer*65536 + seq))}
 	return p
+}
+
+func tagSum(writer, seq int) int8 {
+	return int8((writer*31 + seq*7 + 1) & 0x7f)
 }
 
 func (p ttPayload) val() int { return p.ply + p.depth<<1 }
@@ -222,9 +238,14 @@ func runTTHistory(c *fw.Ctx, r *rand.Rand, slots, clients, opsPer, hashesPerSlot
 				continue
 			}
 			hits++
-			w, ok := written[op.tagW-1][op.tagQ], op.tagW >= 1 && op.tagW <= clients
+			if op.tagW == -1 {
+				c.Violate("tt:mixed-tuple", "Read(%d) returned a score whose parts belong to different stores (%v): %s", op.hash, op.p.score, what)
+				continue
+			}
+			var w ttPayload
+			ok := op.tagW >= 1 && op.tagW <= clients
 			if ok {
-				_, ok = written[op.tagW-1][op.tagQ]
+				w, ok = written[op.tagW-1][op.tagQ]
 			}
 			if !ok {
 				c.Violate("tt:phantom", "Read(%d) returned score tag w%d#%d that nobody wrote: %s", op.hash, op.tagW, op.tagQ, what)
@@ -305,6 +326,8 @@ func runC17(c *fw.Ctx, cs fw.Case) {
 	switch cs.Kind {
 	case "lin", "linplain":
 		defer installTTHooks(cs.Seed, []int{0, 20, 60}[cs.Idx%3])()
+		narrowPayloads.Store(cs.Idx%4 == 3)
+		defer narrowPayloads.Store(false)
 		for i := 0; i < cs.N; i++ {
 			slots := []int{1, 1, 2, 4, 8}[r.Intn(5)]
 			clients := 2 + r.Intn(5)
@@ -318,6 +341,8 @@ func runC17(c *fw.Ctx, cs fw.Case) {
 		}
 	case "stress", "stressplain":
 		defer installTTHooks(cs.Seed, []int{0, 10, 40}[cs.Idx%3])()
+		narrowPayloads.Store(cs.Idx%2 == 1)
+		defer narrowPayloads.Store(false)
 		for i := 0; i < cs.N; i++ {
 			slots := []int{1, 1, 2, 8}[r.Intn(4)]
 			clients := 4 + r.Intn(13)
